@@ -53,9 +53,25 @@ def check(ctx):
         if isinstance(s, ast.Assign) and isinstance(s.targets[0], ast.Name) and s.targets[0].id not in first:
             first[s.targets[0].id] = s.value
     ctx.need(all(k in first for k in ('s', 'e', 'f')), 'fp16_to_float: sign/exponent/fraction extraction not found')
-    sb = B_.evaluate(first['s'], sc, {x: 'h'}, {'h': 16})
-    eb = B_.evaluate(first['e'], sc, {x: 'h'}, {'h': 16})
-    fb = B_.evaluate(first['f'], sc, {x: 'h'}, {'h': 16})
+    # width of the argument: a caller that unpacks the half float as a *signed* short ('h') hands in a sign-extended (possibly
+    # negative) int, so bits above 15 are not known to be zero and every field must be masked, the sign bit included
+    signed_callers = []
+    for cf_ in m.mod(LOC).all_funcs():
+        fmt = {norm(t): fold_in(cf_, st.value.args[0]) for st in walk_own(cf_.node) if isinstance(st, ast.Assign) and isinstance(st.value, ast.Call)
+               and dotted(st.value.func) == 'struct.unpack' and st.value.args for t in st.targets}
+        for c in walk_own(cf_.node):
+            if isinstance(c, ast.Call) and dotted(c.func) == 'fp16_to_float' and c.args and isinstance(c.args[0], ast.Subscript):
+                fm, k = fmt.get(norm(c.args[0].value)), fold_in(cf_, c.args[0].slice)
+                if isinstance(fm, str) and isinstance(k, int):
+                    codes = [ch for ch in fm if ch.isalpha()]
+                    if k < len(codes) and codes[k] == 'h':
+                        signed_callers.append('%s:%d' % (cf_.qualname, c.lineno))
+    width = 32 if signed_callers else 16
+    if signed_callers:
+        ctx.note('fp16_to_float receives signed shorts from %s: fields must be masked (argument modelled %d bits wide)' % (signed_callers[:2], width))
+    sb = B_.evaluate(first['s'], sc, {x: 'h'}, {'h': width})
+    eb = B_.evaluate(first['e'], sc, {x: 'h'}, {'h': width})
+    fb = B_.evaluate(first['f'], sc, {x: 'h'}, {'h': width})
     ctx.inst('R2', f, 'sign=bit15', B_.is_input_field(sb, 0, 1, 'h', 15) and all(b == 0 for b in sb[1:]), 'sign extracted as %s' % B_.describe(sb, 4))
     ctx.inst('R2', f, 'exponent=bits14..10', B_.is_input_field(eb, 0, 5, 'h', 10) and all(b == 0 for b in eb[5:]), 'exponent extracted as %s' % B_.describe(eb, 8))
     ctx.inst('R2', f, 'fraction=bits9..0', B_.is_input_field(fb, 0, 10, 'h', 0) and all(b == 0 for b in fb[10:]), 'fraction extracted as %s' % B_.describe(fb, 12))
@@ -163,17 +179,7 @@ def check(ctx):
             i = el.index('%s >> 8' % wn)
             okb = el[i + 1:i + 2] == ['%s & 255' % wn]
         ctx.inst('R5', fx, 'bytes-high-low', okb, 'the word is emitted high byte then low byte')
-    lt = m.func(LEDT, 'LEDTimingsDriverMemory.write_data')
-    rec = [t for t in ast.walk(lt.node) if isinstance(t, ast.List) and len(t.elts) == 4 and any('led >> 8' == norm(e) for e in t.elts)]
-    ctx.inst('R5', lt, 'timing-record', len(rec) == 1 and [norm(e) for e in rec[0].elts] == ["timing['time'] & 255", 'led >> 8', 'led & 255', 'extra'],
-             'timing record is (time, colour high, colour low, flags)')
-    ex = [s for s in walk_own(lt.node) if isinstance(s, ast.Assign) and norm(s.targets[0]) == 'extra']
-    if ex:
-        eb = B_.evaluate(ex[0].value, Scope.of(lt), {"timing['leds']": 'leds', "timing['fade']": 'fade', "timing['rotate']": 'rot'}, {'leds': 8, 'fade': 1, 'rot': 8})
-        ctx.inst('R5', lt, 'timing-flags', B_.is_input_field(eb, 0, 4, 'leds') and B_.is_input_field(eb, 4, 1, 'fade') and B_.is_input_field(eb, 5, 3, 'rot') and all(b == 0 for b in eb[8:]),
-                 'flags byte = leds | fade<<4 | rotate<<5; bits %s' % B_.describe(eb, 8))
-    term = [s for s in lt.node.body if isinstance(s, ast.AugAssign) and norm(s.target) == 'data' and norm(s.value) == '[0, 0, 0, 0]']
-    ctx.inst('R5', lt, 'terminator', len(term) == 1, 'the sequence ends with an all-zero record')
+    led_timing_rules(ctx, 'R5')
 
     # ---- R6: stream decoders -----------------------------------------------------------------------------
     inc = m.func(LOC, 'Localization._incoming')
@@ -203,6 +209,45 @@ def check(ctx):
 
 
 
+def led_timing_rules(ctx, rule='R5'):
+    """LED timing sequence image (write only): records (time, colour high, colour low, flags), all-zero record = end of sequence, so no
+    all-zero record may be emitted before the terminator.  Shared with C14 (write-only images have the layout the firmware reads)."""
+    m = ctx.model
+    lt = m.func(LEDT, 'LEDTimingsDriverMemory.write_data')
+    rec = [t for t in ast.walk(lt.node) if isinstance(t, ast.List) and len(t.elts) == 4 and any('led >> 8' == norm(e) for e in t.elts)]
+    ctx.inst(rule, lt, 'timing-record', len(rec) == 1 and [norm(e) for e in rec[0].elts] == ["timing['time'] & 255", 'led >> 8', 'led & 255', 'extra'],
+             'timing record is (time, colour high, colour low, flags)')
+    ex = [s for s in walk_own(lt.node) if isinstance(s, ast.Assign) and norm(s.targets[0]) == 'extra']
+    if ex:
+        eb = B_.evaluate(ex[0].value, Scope.of(lt), {"timing['leds']": 'leds', "timing['fade']": 'fade', "timing['rotate']": 'rot'}, {'leds': 8, 'fade': 1, 'rot': 8})
+        ctx.inst(rule, lt, 'timing-flags', B_.is_input_field(eb, 0, 4, 'leds') and B_.is_input_field(eb, 4, 1, 'fade') and B_.is_input_field(eb, 5, 3, 'rot') and all(b == 0 for b in eb[8:]),
+                 'flags byte = leds | fade<<4 | rotate<<5; bits %s' % B_.describe(eb, 8))
+    term = [s for s in lt.node.body if isinstance(s, ast.AugAssign) and norm(s.target) == 'data' and norm(s.value) == '[0, 0, 0, 0]']
+    ctx.inst(rule, lt, 'terminator', len(term) == 1, 'the sequence ends with an all-zero record')
+
+    g = cfg_of(lt)
+    app = [n for n in g.nodes if n.kind == 'stmt' and rec and any(x is rec[0] for x in ast.walk(n.ast))]
+    ok, why = False, 'record append not found'
+    if len(app) == 1:
+        emitted = [norm(e) for e in rec[0].elts]
+        covers = set(emitted) | {'led'}          # led != 0 <=> one of its two bytes != 0 (16-bit word)
+        conds = [i_ for i_ in walk_own(lt.node) if isinstance(i_, ast.If) and any(x is app[0].ast for s_ in i_.body for x in ast.walk(s_))]
+        if not conds:
+            ok, why = False, 'records are appended unfiltered: an entry encoding to 00 00 00 00 ends the sequence early'
+        else:
+            t = conds[-1].test
+            disj = t.values if isinstance(t, ast.BoolOp) and isinstance(t.op, ast.Or) else [t]
+            bad = []
+            for d in disj:
+                k = canon_test(d)
+                lhs = [x for x in covers if k == canon_test(ast.parse('(%s) != 0' % x, mode='eval').body)]
+                if not lhs:
+                    bad.append(norm(d))
+            ok = not bad
+            why = 'a record is appended only if one of its own bytes is non-zero; disjuncts not about an emitted byte: %s' % (bad or 'none')
+    ctx.inst(rule, lt, 'no-zero-record-before-terminator', ok, why)
+
+
 def quaternion_rules(ctx, rule='R3'):
     """Quaternion writer/reader agreement (shared with C08: the full-state set-point carries the compressed orientation)."""
     m = ctx.model
@@ -214,6 +259,28 @@ def quaternion_rules(ctx, rule='R3'):
     ctx.need(len(wl) == 1 and len(rl) == 1, 'quaternion codec loops not found')
     ctx.inst(rule, cq, 'writer-order-ascending', fold_in(cq, wl[0].iter) == (0, 1, 2, 3), 'writer visits components 0..3 ascending; iter %s' % norm(wl[0].iter))
     ctx.inst(rule, dq, 'reader-order-descending', fold_in(dq, rl[0].iter) == (3, 2, 1, 0), 'reader visits components 3..0 descending; iter %s' % norm(rl[0].iter))
+    # the vector that is quantised is the input divided by its own norm, on every path
+    gq = cfg_of(cq)
+    qn = [n for n in gq.nodes if n.kind == 'stmt' and isinstance(n.ast, (ast.Assign, ast.AugAssign)) and norm(n.ast.targets[0] if isinstance(n.ast, ast.Assign) else n.ast.target) == 'quat_n']
+    ctx.need(qn, 'compress_quaternion: the normalised vector quat_n is not assigned')
+    srcs = {cq.params[0], 'np.array(%s)' % cq.params[0], 'np.asarray(%s)' % cq.params[0], 'np.array(%s, dtype=float)' % cq.params[0], 'np.asarray(%s, dtype=float)' % cq.params[0], 'quat_n'}
+
+    def is_div(n_):
+        a = n_.ast
+        if isinstance(a, ast.AugAssign):
+            l_, op_, r_ = a.target, a.op, a.value
+        elif isinstance(a.value, ast.BinOp):
+            l_, op_, r_ = a.value.left, a.value.op, a.value.right
+        else:
+            return False
+        return isinstance(op_, ast.Div) and norm(l_) in srcs and isinstance(r_, ast.Call) and norm(r_.func) == 'np.linalg.norm' and len(r_.args) == 1 and norm(r_.args[0]) in srcs
+    divs = [n for n in qn if is_div(n)]
+    reads = [n for n in gq.nodes if n.ast is not None and n not in qn and n.kind in ('stmt', 'if', 'for', 'while', 'return') and
+             any(isinstance(x, ast.Subscript) and norm(x.value) == 'quat_n' for x in (walk_own(n.ast) if n.kind == 'stmt' else ast.walk(n.ast.test if n.kind in ('if', 'while') else n.ast.iter if n.kind == 'for' else n.ast)))]
+    okn = len(divs) == 1 and bool(reads) and all(gq.dominates(divs[0], r) for r in reads) and not gq.fact_keys_at(divs[0]) and \
+        all(n is divs[0] or gq.dominates(n, divs[0]) for n in qn)
+    ctx.inst(rule, cq, 'normalised-on-every-path', okn, 'the quantised vector is input / ||input|| unconditionally (a vector of length 1.005 quantised unscaled overflows the 9-bit magnitude '
+             'and puts the whole length error into the dropped component); assignments: %s' % [norm(n.ast) for n in qn])
     sel = [l for l in walk_own(cq.node) if isinstance(l, ast.For) and any(isinstance(x, ast.Assign) and norm(x.targets[0]) == 'i_largest' for x in walk_own(l))]
     oks = False
     if len(sel) == 1:
@@ -317,6 +384,8 @@ def scale_core(node):
 
 
 VARIANTS = [
+    M('R5', LEDT, "            if (timing['time'] & 0xFF) != 0 or led != 0 or extra != 0:", "            if timing['time'] != 0 or led != 0 or extra != 0:", 'filter tests the unmasked time'),
+    M('R2', ENC, "    s = int((float16 >> 15) & 0x00000001)    # sign", "    s = int(float16 >> 15)    # sign", 'sign not masked: negative for the signed shorts of the angle stream'),
     M('R1', ENC, "            return struct.unpack('f', struct.pack('I', int(s << 31)))[0]", "            return int(s << 31)", 'F-13a reintroduced (zero)'),
     M('R2', ENC, "    e = int((float16 >> 10) & 0x0000001f)    # exponent", "    e = int((float16 >> 10) & 0x0000000f)    # exponent", 'exponent mask'),
     M('R2', ENC, "    f <<= 13\n", "    f <<= 12\n", 'fraction shift'),
